@@ -24,6 +24,7 @@ class InterpolatedCurveBase(FunctionCurveBase, abc.ABC):
     are based on that function rather than specified points."""
 
     _interpolator: Type[InterpolatorBase]
+    function: InterpolatorBase
 
     def __init__(self, points: PointListType, extrapolate: bool = False, equalize: bool = True):
         self.array = Array(points)
@@ -48,16 +49,10 @@ class InterpolatedCurveBase(FunctionCurveBase, abc.ABC):
         """Returns the length of this curve by summing distance between
         points. The 'count' parameter is ignored as the original points are taken."""
         param_from, param_to = self._get_params(param_from, param_to)
+        param_from, param_to = min(param_from, param_to), max(param_from, param_to)
 
-        index_from = int(param_from * self.segments) + 1
-        index_to = int(param_to * self.segments)
-
-        if index_from < index_to:
-            indexes = list(range(index_from, index_to + 1))
-        else:
-            indexes = []
-
-        params = [param_from, *[i / self.segments for i in indexes[:-1]], param_to]
+        # original points are at interpolator's parameters (not equally spaced when equalized)
+        params = [param_from, *[t for t in self.function.params if param_from < t < param_to], param_to]
         return f.polyline_length(np.array([self.function(t) for t in params]))
 
 
